@@ -1975,7 +1975,7 @@ func (app *App) repairCascadeNode(node *mysql.Node, clusterState map[string]*nod
 		// As a result, we know that myGTIDs fetched AFTER candidate's GTIDs...
 		// We should wait until myGTIDs (fetched later) are lower or equal to candidateGTIDs (fetched earlier)
 		mySlaveStatus, err := node.GetReplicaStatus() // retrieve fresh GTIDs
-		if err != nil {
+		if err != nil || mySlaveStatus == nil {
 			app.logger.Warn().Msgf("repair: cannot obtain own SLAVE/REPLICA STATUS")
 			return
 		}
